@@ -24,6 +24,7 @@ func c09(r *core.Report) {
 	c09Stable(r)
 	c09LessPos(r)
 	c09TryAll(r)
+	c09QueryCut(r)
 	c09VarNames(r)
 	c09EveryServer(r)
 	c09ParamPrecedence(r)
